@@ -47,6 +47,33 @@ struct Model {
     std::set<int> evicted[2];
 
     bool seen[2]{false, false};
+    int64_t n_request_moved{0};
+
+    // request level: a completed top-level request for a cached length is a USE of that length, whether or not the
+    // implementation consulted its cache for it (a shortcut in front of the cache must not make the cache forget the use).
+    // On an implementation that looks the length up, the events above have already put it in front and this is a no-op.
+    void request(int id, int n) {
+        if (id < 0 || id > 1 || !error.empty() || n == 1 || n == 2 || n == 4 || n == 8 || n < 1) {
+            return;
+        }
+        Lru& l = c[id];
+        if (!seen[id]) {
+            seen[id] = true;
+            l.keys = (id == 0) ? dsplib::verif::fft_cache_keys() : dsplib::verif::rfft_cache_keys();
+        }
+        if (!l.keys.empty() && l.keys.front() == n) {
+            return;
+        }
+        ++n_request_moved;
+        if (l.has(n)) {
+            l.touch(n);
+        } else {
+            l.keys.insert(l.keys.begin(), n);
+            if (int(l.keys.size()) > capacity) {
+                l.keys.pop_back();
+            }
+        }
+    }
 
     void event(int id, int n, int ev) {
         if (id < 0 || id > 1 || !error.empty()) {
@@ -205,6 +232,9 @@ bool op_valid(const Op& op) {
     if (op.kind == "gccphat" || op.kind == "thd") {
         return op.a.size() >= 2 && sz(0) && op.iarg(0) >= 16;
     }
+    if (op.kind == "misuse") {
+        return op.a.size() >= 4 && sz(0) && sz(1) && op.iarg(0) != op.iarg(1) && op.iarg(2) >= 0 && op.iarg(2) <= 2;
+    }
     if (op.kind == "resample") {
         return op.a.size() >= 4 && sz(0) && op.iarg(1) >= 1 && op.iarg(1) <= 12 && op.iarg(2) >= 1 && op.iarg(2) <= 12;
     }
@@ -302,6 +332,21 @@ std::vector<double> do_request(const Op& op) {
         const auto r = dsplib::thd(x, 3);
         out.push_back(r.value);
         append(out, r.harmfreq);
+    } else if (op.kind == "misuse") {
+        // a plan object applied to an input of another length: rejected (or answered) the same way in a fresh thread, and
+        // without any effect on what later requests of either length return
+        const int n2 = int(op.iarg(1));
+        const uint32_t ds = uint32_t(op.iarg(3));
+        if (op.iarg(2) == 0) {
+            dsplib::FftPlan p(n);
+            append(out, p(cdata(ds, n2)));
+        } else if (op.iarg(2) == 1) {
+            dsplib::FftPlanR p(n);
+            append(out, p(rdata(ds, n2)));
+        } else {
+            dsplib::IfftPlan p(n);
+            append(out, p(cdata(ds, n2)));
+        }
     } else if (op.kind == "resample") {
         append(out, dsplib::resample(rdata(uint32_t(op.iarg(3)), n), int(op.iarg(1)), int(op.iarg(2))));
     }
@@ -399,6 +444,13 @@ Plan gen(uint64_t seed, const std::string& tier) {
             } else {
                 op.a = {double(std::max(n, 2)), ds};
             }
+        } else if (c == 14 && r.chance(0.3)) {
+            op.kind = "misuse";
+            int n2 = r.pick(alpha);
+            if (n2 == n) {
+                n2 = n + 1;
+            }
+            op.a = {double(n), double(n2), double(r.below(3)), ds};
         } else if (c == 14 && r.chance(0.5)) {
             // the m = n, w = exp(-2 pi i / n) form is the one the prime-length FFT plans use internally
             op.kind = "czt";
@@ -557,6 +609,18 @@ Result exec(const Plan& pl) {
                 fail("C10:exception", fmt("thread %d op %zu %s(%lld): exception: %s", me, i, op.kind.c_str(), static_cast<long long>(op.iarg(0)), e.what()));
             }
             // phase 2: refinement, before anything else touches a cache
+            if (got.size() >= 1 && !(got.size() == 2 && got[0] == -7777.0)) {
+                if (op.kind == "fft" || op.kind == "ifft") {
+                    md.request(0, int(op.iarg(0)));
+                } else if (op.kind == "rfft") {
+                    md.request(1, int(op.iarg(0)));
+                } else if (op.kind == "irfft") {
+                    md.request(0, int(op.iarg(0)) / 2);
+                } else if (op.kind == "mkplan" && op.iarg(1) != PK_CZT) {
+                    const int kind = int(op.iarg(1));
+                    md.request(kind == PK_FFTR ? 1 : 0, kind == PK_IFFTR ? int(op.iarg(2)) / 2 : int(op.iarg(2)));
+                }
+            }
             lockstep("after the request");
             // phase 3: transparency - the same request in a fresh thread
             if (ref_fn) {
@@ -634,6 +698,7 @@ Result exec(const Plan& pl) {
     }
     for (const auto& md : models) {
         res.inc("probe.eviction", md.n_evict);
+        res.inc("probe.request_not_most_recent_in_event_model", md.n_request_moved);
         res.inc("probe.reinsertion_of_evicted_key", md.n_reinsert);
         res.inc("probe.subplan_hit_during_construction", md.n_subhit);
         res.inc("sim.cache_hits", md.n_hit);
